@@ -1,19 +1,31 @@
 """C16 - location scopes round-trip; location filtering tolerates foreign scopes.
 
 spec:    specs/Location.tla - reference semantics over texts that are sequences of Unicode code points:
-         Scope (rendering), Parse (RFC 3986 split + query decoding), Inside, Widen/Change filter locations, and
-         three enumerated domains (one state per case, laws of the reference as invariants):
-           loc      64 presence patterns x value classes x shapes x how an absent element is passed
+         Scope (rendering, 4 percent-encoding variants), Parse (RFC 3986 split + query decoding), Inside,
+         Widen/Change filter locations, and three enumerated domains in one TLC run (one state per case, the laws
+         Parse(Scope(l)) = l, Inside(l, Widen(l, S)), ~Inside(l, Change(l, e)), totality/classification of Parse on the
+         foreign domain as invariants of the reference):
+           loc      64 presence patterns x value classes x shapes x how an absent element is passed (None / '')
            foreign  scheme x authority x path shape x query class x fragment of a scope another device publishes
            ident    the Identification shapes an application can give the provider's own location state
-binding: spec -> code: TLC prints every case (CASE lines, -workers 1); this module concretises it (code points ->
-         str, '' / None for absent elements) and calls the real SdcLocation.scope_string / from_scope_string /
-         filter_services_inside, ProviderMdibXtra.set_location (-> LocationContextStateContainer.
-         update_from_sdc_location) + scopesfactory.mk_scopes, and WSDiscovery.search_sdc_device_services_in_location
-         (no sockets: timeout=0 over a pre-filled remote service table).
+binding: spec -> code: TLC prints every case (CASE lines, -workers 1) and the plan of filter locations (PLAN); this
+         module concretises them (code points -> str, '' / None for absent elements) and calls the real
+         SdcLocation.scope_string / from_scope_string / filter_services_inside, ProviderMdibXtra.set_location
+         (-> LocationContextStateContainer.update_from_sdc_location) + scopesfactory.mk_scopes, and
+         WSDiscovery.search_sdc_device_services_in_location (no sockets: timeout=0 over a pre-filled remote service
+         table).
          code -> spec: every recorded result is judged by TLC (specs/LocationTrace.tla) with the SAME operators;
-         python only maps a rejected clause to a finding description (exception class and raising function).
-Nothing is compared in python.
+         nothing is compared in python, which only maps a rejected clause to a finding description (exception
+         class, raising function) and orders the rejected records so that the simplest input becomes the replay.
+clauses: own_scope_total / own_roundtrip / own_inside_widening / own_outside_changed  (SdcLocation.scope_string),
+         pub_total / pub_roundtrip / pub_inside_widening / pub_outside_changed        (mk_scopes after set_location),
+         own_scope_grammar / pub_scope_grammar (the real scope read by the reference parser, '+' in a query accepted
+         as blank or as itself), ref_scope_parsed (reference renderings with %20, upper and lower case hex, read by
+         the real parser), filter_total / filter_sublist / filter_keeps_inside / filter_foreign_verdict (foreign
+         scopes; a verdict is demanded only for well-formed sdc.ctxt.loc:/root/ext scopes), pub_inside_own (ident).
+not demanded (acceptance decisions): '' is the same as None; root stays at its default; '' is never used as an element
+         of a filter location; publishing the all-absent location (documented ValueError) is not judged.
+--replay <file>: re-drives the single case stored in a replay file and lets TLC judge it.
 """
 from __future__ import annotations
 
@@ -321,30 +333,42 @@ def info_for(rec: dict, clause: str) -> dict:
     return {}
 
 
-def judge(run, recs: list[dict], payloads: list[dict], kind: str, chunk: int):
+def simplicity(item):
+    """Order in which rejected records are reported: the simplest concrete input first (it becomes the replay)."""
+    rec, payload = item[1], item[2]
+    if rec['c']['kind'] == 'foreign':
+        return (len(rec['scope']), f"{int(rec['c']['scheme'] != 'loc')}{rec['scope']}")
+    return (sum(len(v) for v in payload['loc'].values()), json.dumps(rec['c'], sort_keys=True))
+
+
+def judge(run, recs: list[dict], payloads: list[dict], chunk: int):
     """Let TLC judge the records; turn rejected clauses into violations."""
     traces = [[{'c': r['c'], 'a': r['a']}] for r in recs]
     rejects = tracecheck.validate(run, 'LocationTrace', 'LocationTrace.cfg', traces, chunk=chunk, timeout=2400)
-    n_rej = 0
-    for ti, _li, clause in rejects:
-        n_rej += 1
-        rec, c = recs[ti], recs[ti]['c']
+    items = sorted(((clause, recs[ti], payloads[ti]) for ti, _li, clause in rejects), key=simplicity)
+    for clause, rec, payload in items:
+        c = rec['c']
+        kind = c['kind']
+        run.count(f'rejected_clauses_{kind}')
         info = info_for(rec, clause)
-        descr = {'check': kind, 'clause': clause, 'exc': info.get('exc', ''), 'where': info.get('where', ''),
+        base, _, via = clause.partition(':')
+        descr = {'check': kind, 'clause': base, 'exc': info.get('exc', ''), 'where': info.get('where', ''),
                  'origin': info.get('origin', '')}
+        if via:
+            descr['via'] = via
         if kind == 'loc':
             descr['cls'] = c['cls'] if c['shape'] != 'rot' else 'rot'
             descr['absent'] = c['absent']
-            what = f'location {show_loc(payloads[ti]["loc"], c["absent"])}: clause {clause} fails'
+            what = f'location {show_loc(payload["loc"], c["absent"])}: clause {clause} fails'
         elif kind == 'foreign':
             what = f'filter_services_inside with a service publishing {rec["scope"]!r}: clause {clause} fails'
         else:
-            descr['id'] = c['id']
+            if base != 'filter_total':
+                descr['id'] = c['id']
             what = f'own location state with Identification "{c["id"]}" publishes {rec["published"]}: clause {clause} fails'
         if info:
             what += f' ({info["exc"]}: {info["msg"]} raised in {info["where"]} / {info["origin"]})'
-        run.violation(descr, what, {'kind': kind, 'payload': payloads[ti], 'record': rec})
-    run.count(f'rejected_clauses_{kind}', n_rej)
+        run.violation(descr, what, {'kind': kind, 'payload': payload, 'record': rec})
 
 
 def show_loc(loc: dict, absent: str) -> str:
@@ -362,51 +386,56 @@ def check(run, replay_path=None):
         payload, kind = rp['payload'], rp['kind']
         rec = {'loc': lambda: drive_loc(real, payload, plan), 'foreign': lambda: drive_foreign(real, payload),
                'ident': lambda: drive_ident(real, payload)}[kind]()
-        judge(run, [rec], [payload], kind, 10)
+        judge(run, [rec], [payload], 10)
         run.sample({'replayed': kind, 'case': payload['c'], 'actual': {k: v for k, v in rec['a'].items() if 'in_' not in k}})
         return
 
-    # ---- domain 1: locations
-    loc_cfg = run.pick('Location_loc_quick.cfg', 'Location_loc.cfg')
-    payloads, plan = cases_of(run, loc_cfg, expect=run.pick(64 * 12 * 3 * 1, 64 * 31 * 3 * 2))
+    # ---- spec -> code: one TLC run enumerates the three domains and checks the laws of the reference
+    n_loc = run.pick(64 * 6 * 2, 64 * 31 * 4)
+    n_foreign = run.pick(4 * 2 * 11 * 17 * 1, 8 * 4 * 11 * 17 * 3)
+    payloads, plan = cases_of(run, run.pick('Location_quick.cfg', 'Location.cfg'), expect=n_loc + n_foreign + 24)
     if plan['nw'] != 64 or len(plan['change']) != plan['nc']:
         raise MachineryError(f'unexpected plan {plan["nw"]}/{plan["nc"]}')
-    recs = [drive_loc(real, p, plan) for p in payloads]
-    for p, r in zip(payloads, recs):
-        if p['c']['pat'] != 0:
-            run.distinct_traces.add(('loc', tuple(tuple(p['loc'][e]) for e in ELEMENTS), p['c']['absent']))
-    mid = next(i for i, p in enumerate(payloads) if p['c']['pat'] == 41 and p['c']['cls'] == 'mixed' and p['c']['shape'] == 'mid')
-    run.sample({'case': payloads[mid]['c'], 'location': show_loc(payloads[mid]['loc'], payloads[mid]['c']['absent']),
-                'scope_string': txt(recs[mid]['a']['scope']), 'published': txt(recs[mid]['a']['pub']),
-                'inside_verdicts_own': ''.join(map(str, recs[mid]['a']['in_own']))})
-    run.note('loc_cases', len(payloads))
-    run.note('filter_locations_per_case', {'widenings': plan['nw'], 'changes': plan['nc'], 'scopes': 2})
-    judge(run, recs, payloads, 'loc', run.pick(1200, 2000))
-    del recs
+    by_kind = {k: [p for p in payloads if p['c']['kind'] == k] for k in ('loc', 'foreign', 'ident')}
+    if [len(by_kind[k]) for k in ('loc', 'foreign', 'ident')] != [n_loc, n_foreign, 24]:
+        raise MachineryError(f'unexpected domain sizes { {k: len(v) for k, v in by_kind.items()} }')
+    payloads = by_kind['loc'] + by_kind['foreign'] + by_kind['ident']
+    recs = []
+    for p in payloads:
+        kind = p['c']['kind']
+        if kind == 'loc':
+            r = drive_loc(real, p, plan)
+            if p['c']['pat'] != 0:
+                run.distinct_traces.add(('loc', tuple(tuple(p['loc'][e]) for e in ELEMENTS), p['c']['absent']))
+        elif kind == 'foreign':
+            r = drive_foreign(real, p)
+            run.distinct_traces.add(('foreign', r['scope']))
+        else:
+            r = drive_ident(real, p)
+            run.distinct_traces.add(('ident', tuple(r['published'])))
+        recs.append(r)
 
-    # ---- domain 2: foreign scopes
-    payloads, _ = cases_of(run, run.pick('Location_foreign_quick.cfg', 'Location_foreign.cfg'),
-                           expect=run.pick(4 * 2 * 11 * 17 * 1, 8 * 4 * 11 * 17 * 3))
-    recs = [drive_foreign(real, p) for p in payloads]
-    for r in recs:
-        run.distinct_traces.add(('foreign', r['scope']))
-    pick = next(i for i, p in enumerate(payloads)
-                if p['c']['scheme'] == 'loc' and p['c']['path'] == 'p1' and p['c']['query'] == 'inside'
-                and p['c']['auth'] == 'none' and p['c']['frag'] == 'no')
-    run.sample({'case': payloads[pick]['c'], 'foreign_scope': recs[pick]['scope'], 'actual': recs[pick]['a']})
-    run.note('foreign_cases', len(payloads))
-    run.note('foreign_judged_verdicts', sum(1 for p in payloads if p['c']['scheme'] == 'loc' and p['c']['auth'] == 'none'
-                                            and p['c']['path'] == 'p2' and p['c']['query'] in ('inside', 'outside', 'unknown')))
-    judge(run, recs, payloads, 'foreign', 6000)
+    def pick(**want):
+        return next(i for i, p in enumerate(payloads) if all(p['c'].get(k) == v for k, v in want.items()))
 
-    # ---- domain 3: identifications of the provider's own state
-    payloads, _ = cases_of(run, 'Location_ident.cfg', expect=24)
-    recs = [drive_ident(real, p) for p in payloads]
-    for r in recs:
-        run.distinct_traces.add(('ident', tuple(r['published'])))
-    run.sample({'case': recs[0]['c'], 'published': recs[0]['published'], 'actual': recs[0]['a']})
-    run.note('ident_cases', len(payloads))
-    judge(run, recs, payloads, 'ident', 100)
+    i = pick(kind='loc', pat=41, cls='mixed', shape='mid', absent='none')
+    run.sample({'case': payloads[i]['c'], 'location': show_loc(payloads[i]['loc'], 'none'),
+                'scope_string': txt(recs[i]['a']['scope']), 'published': txt(recs[i]['a']['pub']),
+                'inside_verdicts_own': ''.join(map(str, recs[i]['a']['in_own']))})
+    i = pick(kind='foreign', scheme='loc', path='p1', query='inside', auth='none', frag='no')
+    run.sample({'case': payloads[i]['c'], 'foreign_scope': recs[i]['scope'], 'actual': recs[i]['a']})
+    i = pick(kind='ident', id='noext', pat=1)
+    run.sample({'case': payloads[i]['c'], 'published': recs[i]['published'], 'actual': recs[i]['a']})
+    run.note('cases', {k: len(v) for k, v in by_kind.items()})
+    run.note('filter_locations_per_loc_case', {'widenings': plan['nw'], 'changes': plan['nc'], 'scopes': 2})
+    run.note('foreign_judged_verdicts', sum(1 for p in by_kind['foreign'] if p['c']['scheme'] == 'loc'
+                                            and p['c']['auth'] == 'none' and p['c']['path'] == 'p2'
+                                            and p['c']['query'] in ('inside', 'outside', 'unknown')))
+    for k in by_kind:
+        run.count(f'rejected_clauses_{k}', 0)
+
+    # ---- code -> spec: TLC judges every record
+    judge(run, recs, payloads, run.pick(4000, 3000))
 
     run.evaluations = real.calls
     run.note('exhaustive', True)
